@@ -2,8 +2,10 @@
 """Prints the prompt given to an independent sub-agent that seeds a property-breaking change (nothing from /verif is shown to it)."""
 import json, sys
 pid = sys.argv[1]
+tag = sys.argv[2] if len(sys.argv) > 2 else pid
+focus = sys.argv[3] if len(sys.argv) > 3 else None
 d = next(json.loads(l) for l in open('/verif/properties.jsonl') if json.loads(l)['id'] == pid)
-print(f"""You are helping to evaluate a verification harness for the open-source project lakiw/pcfg_cracker (a PCFG password-guess generator: a trainer that segments leaked passwords into a probabilistic grammar, a guesser that enumerates guesses in probability order, a scorer, PRINCE-LING and edit_rules). You get your OWN scratch git worktree of the repository at /tmp/seedwt/{pid} . Work ONLY inside /tmp/seedwt/{pid} and /tmp/seedout/{pid} . Never touch /repo or /verif and do not read anything under /verif.
+print(f"""You are helping to evaluate a verification harness for the open-source project lakiw/pcfg_cracker (a PCFG password-guess generator: a trainer that segments leaked passwords into a probabilistic grammar, a guesser that enumerates guesses in probability order, a scorer, PRINCE-LING and edit_rules). You get your OWN scratch git worktree of the repository at /tmp/seedwt/{tag} . Work ONLY inside /tmp/seedwt/{tag} and /tmp/seedout/{tag} . Never touch /repo or /verif and do not read anything under /verif.
 
 The property under study (id {pid}): "{d['title']}"
 Statement: {d['statement']}
@@ -11,11 +13,12 @@ It must hold: {d['quantifier']['text']}
 Relevant files: {', '.join(d['anchors']['files'])}
 
 YOUR TASK: write ONE realistic source change to the repository (in your worktree) that BREAKS this property while
- (a) the code still imports/compiles and the repository's existing test suite still passes:  cd /tmp/seedwt/{pid} && /venv/bin/python -m pytest -q -p no:cacheprovider   (75 tests, all must pass), and
+ (a) the code still imports/compiles and the repository's existing test suite still passes:  cd /tmp/seedwt/{tag} && /venv/bin/python -m pytest -q -p no:cacheprovider   (75 tests, all must pass), and
  (b) the breakage needs something SPECIFIC to manifest - a particular interleaving, a crash/fault/quit at a particular point, a multi-step sequence of operations, an unusual input or ruleset shape, or two cooperating code sites that each look fine alone. It must NOT be exposed at once by ordinary use (e.g. running the guesser on the Default ruleset for a few guesses must look normal). Make it look like a plausible refactoring/optimisation/bug-fix gone wrong, not sabotage; keep it small (a few lines, at most two files).
-Then write a DEMONSTRATION: a small self-contained Python script /tmp/seedout/{pid}/demo.py (run as: /venv/bin/python /tmp/seedout/{pid}/demo.py <repo_root>) that imports the code from <repo_root> (sys.path.insert(0, repo_root)), builds whatever input it needs (tiny rulesets / training files in a temp dir - look at Rules/Default for the on-disk format, or at the loaders), exits 0 when the property holds and exits 1 (printing what went wrong) when it is violated. It must FAIL (exit 1) with your change applied and PASS (exit 0) on the unchanged repository. Verify both yourself: run it against /tmp/seedwt/{pid} with your change; then save the diff (git -C /tmp/seedwt/{pid} diff > /tmp/seedout/{pid}/patch.diff), revert with `git -C /tmp/seedwt/{pid} apply -R /tmp/seedout/{pid}/patch.diff`, run the demo again (must exit 0), and re-apply with `git -C /tmp/seedwt/{pid} apply /tmp/seedout/{pid}/patch.diff`. NEVER use `git stash` (the stash is shared between worktrees and other people are working in sibling worktrees).
-Deliver, in /tmp/seedout/{pid}/ :
-  patch.diff  = output of `git -C /tmp/seedwt/{pid} diff` (do NOT commit),
+Then write a DEMONSTRATION: a small self-contained Python script /tmp/seedout/{tag}/demo.py (run as: /venv/bin/python /tmp/seedout/{tag}/demo.py <repo_root>) that imports the code from <repo_root> (sys.path.insert(0, repo_root)), builds whatever input it needs (tiny rulesets / training files in a temp dir - look at Rules/Default for the on-disk format, or at the loaders), exits 0 when the property holds and exits 1 (printing what went wrong) when it is violated. It must FAIL (exit 1) with your change applied and PASS (exit 0) on the unchanged repository. Verify both yourself: run it against /tmp/seedwt/{tag} with your change; then save the diff (git -C /tmp/seedwt/{tag} diff > /tmp/seedout/{tag}/patch.diff), revert with `git -C /tmp/seedwt/{tag} apply -R /tmp/seedout/{tag}/patch.diff`, run the demo again (must exit 0), and re-apply with `git -C /tmp/seedwt/{tag} apply /tmp/seedout/{tag}/patch.diff`. NEVER use `git stash` (the stash is shared between worktrees and other people are working in sibling worktrees).
+Deliver, in /tmp/seedout/{tag}/ :
+  patch.diff  = output of `git -C /tmp/seedwt/{tag} diff` (do NOT commit),
   demo.py,
   notes.md    = 5-15 lines: what the change is, why it breaks the property, exactly what is needed for it to manifest, and the commands you ran with their results (tests pass, demo fails with / passes without).
+{('FOCUS: put your change in (or mainly in) ' + focus + ' - think of a failure mode that only shows after a particular history of operations or for a particular shape of input, not one that every run hits.') if focus else ''}
 Tips: python is /venv/bin/python (3.12). Source files mostly use CRLF line endings - preserve them (edit carefully so that `git diff` shows only your lines). Do not use the network. Finish by printing the content of notes.md as your final answer.""")
